@@ -1,7 +1,8 @@
 (* C13 — Dial sends a well-formed handshake and accepts only a valid server response.
    Statements only; proofs in Proofs/HandshakeP.v and Proofs/HsComposeP.v. *)
 From Coq Require Import List NArith Bool.
-From WS Require Import Base.Words Gen.Consts Model.Proto Model.Fold Model.Base64 Model.Sha1 Model.Handshake Model.HsCompose Proofs.HandshakeP Proofs.HsComposeP.
+From Coq Require Import ZArith.
+From WS Require Import Base.Words Gen.Consts Model.Proto Model.Fold Model.Base64 Model.Sha1 Model.Handshake Model.HsCompose Proofs.HandshakeP Proofs.HsComposeP Gen.DialCode Proofs.GenTie2P.
 Import ListNotations.
 
 (* the headers Dial sets: exactly one value each, whatever the caller supplied under those keys *)
@@ -69,3 +70,17 @@ Example C13_composition_nonvacuous :
   verify_server_response o k (lib_response a) = VOk (Some {| cnct := true; snct := true |}).
 Proof. split; [| vm_compute; split; reflexivity].
   repeat constructor; try discriminate; cbv; intuition discriminate. Qed.
+
+(* tie to the source by translation (tools/constx/nego.go, Gen/DialCode.v, regenerated on every run): the model refuses a response exactly
+   when the chain of checks of verifyServerResponse / verifySubprotocol does (status, Connection, Upgrade, accept key, subprotocol — in
+   that order), and otherwise hands over to the extension check (C14_verify_exts_is_source) *)
+Theorem C13_response_checks_are_source : forall o key resp,
+  verify_server_response o key resp =
+  let proto := hs_get (p_hdrs resp) s_SecProtocol in
+  if gen_verify_response_refused (Z.of_nat (p_status resp))
+       (hs_has_token (p_hdrs resp) s_Connection s_Upgrade) (hs_has_token (p_hdrs resp) s_Upgrade s_websocket)
+       (hs_beq (hs_get (p_hdrs resp) s_SecAccept) (accept_key key))
+       (gen_subprotocol_ok (match proto with [] => true | _ => false end) (existsb (fun sp => fold_eq sp proto) (d_subprotocols o)))
+  then VErr else verify_exts (dial_offer o) (p_hdrs resp).
+Proof. exact verify_response_is_source. Qed.
+Print Assumptions C13_response_checks_are_source.
